@@ -357,6 +357,11 @@ def rnd_randint(I, a, k):
 
 
 def rnd_uniform(I, a, k):
+    if Mo.is_list(a[0]) or Mo.is_list(a[1]):
+        # python's random.uniform(a, b) is  a + (b - a) * random():  with array arguments one draw scales every
+        # component
+        u = rnd_random(I, [], {})
+        return Mo.binop(I, ast.Add(), a[0], Mo.binop(I, ast.Mult(), Mo.binop(I, ast.Sub(), a[1], a[0]), u))
     v = _draw(I, 'rnd_uniform', 'real')
     lo, hi = zreal(a[0]), zreal(a[1])
     I.st.assume(z3.And(v.t >= z3.If(lo <= hi, lo, hi), v.t <= z3.If(lo <= hi, hi, lo)))
